@@ -145,8 +145,10 @@ fn run_bounded<S: SliceMut<Element = i32>>(
                     None => R::Opt(None),
                 },
                 "index_mut" => {
-                    let old = rb[ix];
-                    rb[ix] = wv;
+                    // one IndexMut call (reading through Index first would hide an IndexMut that accepts more)
+                    let r = &mut rb[ix];
+                    let old = *r;
+                    *r = wv;
                     R::Opt(Some(old))
                 }
                 "drain" => {
@@ -341,8 +343,10 @@ fn run_fixed<S: SliceMut<Element = i32>>(
                     R::Opt(Some(old))
                 }
                 "index_mut" => {
-                    let old = rb[ix];
-                    rb[ix] = wv;
+                    // one IndexMut call (reading through Index first would hide an IndexMut that accepts more)
+                    let r = &mut rb[ix];
+                    let old = *r;
+                    *r = wv;
                     R::Opt(Some(old))
                 }
                 "set_first" => {
